@@ -2,6 +2,7 @@ package generator
 
 import (
 	"fmt"
+	"go/constant"
 	"go/types"
 	"regexp"
 	"sort"
@@ -137,6 +138,15 @@ func (c Cache) Imports() []string {
 	return imports
 }
 
+// sqlLiteral returns the SQL literal for a constant : numbers as written,
+// strings with single quotes
+func sqlLiteral(val constant.Value) string {
+	if val.Kind() == constant.String {
+		return "'" + strings.ReplaceAll(constant.StringVal(val), "'", "''") + "'"
+	}
+	return val.ExactString()
+}
+
 var reEnums = regexp.MustCompile(`#\[(\w+)\.(\w+)\]`)
 
 // ReplaceEnums replace enum placeholders #[Type.Val] by their values
@@ -149,6 +159,6 @@ func ReplaceEnums(ana *analysis.Analysis, content string) string {
 			panic(fmt.Sprintf("enum placeholder %s : %s is not an enum type used by the source file", s, typeName))
 		}
 		enumValue := enum.Get(varName)
-		return fmt.Sprintf("%s /* %s.%s */", enumValue.Const.Val().ExactString(), typeName, varName)
+		return fmt.Sprintf("%s /* %s.%s */", sqlLiteral(enumValue.Const.Val()), typeName, varName)
 	})
 }
